@@ -309,6 +309,34 @@ theorem includes_pending_set [DecidableEq E] (key : E → K) (lt : K → K → B
   rw [mem_afterBarrier_set, harr.mem_iff]
   simp [pendingFor]
 
+/-! ### dependent operations: per-issuer order
+
+Operations of ONE rank on one key reach the owner in the order they were issued (per-sender FIFO
+delivery, C01): the hypothesis `hfifo` says that the operations on `x` arrive in issue order. -/
+
+/-- whether `x` is in the image is decided by the LAST operation issued on it before serialize -/
+theorem includes_pending_in_issue_order [DecidableEq E] (key : E → K) (lt : K → K → Bool) (n : Nat)
+    (c : Local E X) (issued arr : List (SetOp E)) (x : E)
+    (hfifo : arr.filter (fun o => o.elem = x) = issued.filter (fun o => o.elem = x)) :
+    x ∈ (serializeRank n (afterBarrier (applySetOp key lt) c arr)).contents ↔
+      survives x (decide (x ∈ c.items)) issued = true := by
+  show x ∈ (afterBarrier (applySetOp key lt) c arr).items ↔ _
+  rw [mem_after_setops, survives_filter x _ arr, hfifo, ← survives_filter]
+
+/-- `async_insert(x); async_erase(x); serialize`: `x` is not in the image -/
+theorem erased_pair_not_in_image [DecidableEq E] (key : E → K) (lt : K → K → Bool) (n : Nat)
+    (c : Local E X) (pre post arr : List (SetOp E)) (x : E)
+    (hpost : ∀ o ∈ post, o.elem ≠ x)
+    (hfifo : arr.filter (fun o => o.elem = x) = (pre ++ [SetOp.ins x, SetOp.del x] ++ post).filter (fun o => o.elem = x)) :
+    x ∉ (serializeRank n (afterBarrier (applySetOp key lt) c arr)).contents := by
+  rw [includes_pending_in_issue_order key lt n c _ arr x hfifo, survives_filter]
+  have hp : post.filter (fun o => o.elem = x) = [] := by
+    rw [List.filter_eq_nil_iff]; intro o ho; simpa using hpost o ho
+  rw [List.filter_append, List.filter_append, hp, List.append_nil]
+  unfold survives
+  rw [List.foldl_append]
+  simp [SetOp.elem]
+
 /-! ## the order of `std::string` keys satisfies the hypotheses used above -/
 
 theorem bytes_order_laws :
